@@ -372,16 +372,17 @@ def switch_strategy():
 
 def form_strategy(kinds=None):
     kinds = kinds or FORM_KINDS
+    # few draws per form: large programs must fit Hypothesis' per-example entropy budget
     common = {
         "sw": switch_strategy(),
-        "label": plain_text(),
+        "label": st.sampled_from(["L", "Läbel ✓", "a b", "1", "inf", "значение", "label:"]),
         "main": st.sampled_from([True, True, False, None]),
-        "tooltip": st.one_of(st.none(), plain_text()),
-        "ref": st.integers(0, 50),
-        "ref2": st.integers(0, 50),
-        "parent": st.integers(0, 10),
+        "tooltip": st.sampled_from([None, None, "tip", "подсказка \u2603"]),
+        "ref": st.integers(0, 11),
+        "parent": st.integers(0, 3),
         "uidform": st.sampled_from(UID_FORMS),
     }
+    words = ["Option A", "Option B", "α", "x y", "1", "true", "None", "日本", "a;b", "NaN"]
 
     def of(kind, **extra):
         return st.fixed_dictionaries({"kind": st.just(kind), **common, **extra})
@@ -394,16 +395,17 @@ def form_strategy(kinds=None):
                     vmax=st.one_of(st.none(), float_values()), precision=st.integers(0, 12),
                     line_edit=st.booleans()),
         "string": of("string", v=string_values()),
-        "choice": of("choice", choices=st.lists(plain_text(), min_size=1, max_size=4, unique=True),
-                     pick=st.integers(0, 10)),
-        "multichoice": of("multichoice", choices=st.lists(plain_text(), min_size=1, max_size=4, unique=True),
-                          picks=st.lists(st.integers(0, 10), min_size=0, max_size=4)),
+        "choice": of("choice", choices=st.lists(st.sampled_from(words), min_size=1, max_size=4, unique=True),
+                     pick=st.integers(0, 3)),
+        "multichoice": of("multichoice", choices=st.lists(st.sampled_from(words), min_size=1, max_size=4,
+                                                          unique=True),
+                          picks=st.lists(st.integers(0, 3), min_size=0, max_size=3)),
         "file": of("file", paths=st.lists(st.sampled_from(["a.txt", "/tmp/b c.dat", "dir/ü.csv", "model.con",
                                                            "x.GEOH5", "real.geoh5"]),
                                           min_size=1, max_size=3)),
         "group": of("group", dh=st.booleans()),
         "object": of("object"),
-        "multiobject": of("multiobject", refs=st.lists(st.integers(0, 50), min_size=0, max_size=3)),
+        "multiobject": of("multiobject", refs=st.lists(st.integers(0, 5), min_size=0, max_size=3)),
         "data": of("data", assoc=st.sampled_from(["Vertex", "Cell"])),
         "datagroup": of("datagroup"),
         "datavalue": of("datavalue", is_value=st.booleans(), v=st.one_of(float_values(), int_values()),
@@ -423,14 +425,14 @@ def toplevel_strategy():
                       st.sampled_from(NUMLIKE).map(lambda s: {"s": "numlike", "v": s}),
                       st.lists(st.one_of(int_values(), float_values()), max_size=3).map(lambda v: {"l": v}))
     return st.fixed_dictionaries({
-        "title": plain_text(),
-        "run_command": st.one_of(st.none(), plain_text()),
-        "conda_environment": st.one_of(st.none(), plain_text()),
+        "title": st.one_of(st.sampled_from(["Custom UI", "Título ✓"]), plain_text()),
+        "run_command": st.sampled_from([None, "run_me", "pkg.módulo"]),
+        "conda_environment": st.sampled_from([None, "env"]),
         "conda_environment_boolean": st.booleans(),
         "monitoring_directory": st.sampled_from([None, "scratch", "text"]),
         "workspace": st.sampled_from([None, None, "path"]),
         "run_bool": st.booleans(),
-        "extras": st.lists(value, max_size=3),
+        "extras": st.lists(value, max_size=2),
     })
 
 
@@ -440,13 +442,11 @@ def roundtrip_program_strategy(tier: str):
         "ws": ws_spec_strategy(),
         "geoh5": st.sampled_from(["path", "path", "pathobj", "open_rw", "open_rw", "open_r"]),
         "top": toplevel_strategy(),
-        "forms": st.one_of(st.lists(form_strategy(), min_size=1, max_size=2),
-                           st.lists(form_strategy(), min_size=3, max_size=max_forms),
-                           st.lists(form_strategy(), min_size=4, max_size=max_forms),
-                           st.lists(form_strategy(), min_size=6, max_size=max_forms)),
-        "ident": st.lists(st.fixed_dictionaries({"ref": st.integers(0, 50), "shape": st.sampled_from(
+        "forms": st.sampled_from([1, 2, 3, 3, 4, 4, 5, 5, 6, 7, 8, 9, 10]).flatmap(
+            lambda n: st.lists(form_strategy(), min_size=n, max_size=n)),
+        "ident": st.lists(st.fixed_dictionaries({"ref": st.integers(0, 11), "shape": st.sampled_from(
             ["one", "one", "list", "nested", "plain"]), "kind": st.sampled_from(["obj", "data", "pg", "group", "dhg"])}),
-            min_size=1, max_size=5),
+            min_size=1, max_size=3),
         "allow_known": st.sampled_from([False] * 9 + [True]),
     })
 
